@@ -47,13 +47,16 @@ class Stats:
 
 
 class PathCtx:
-    def __init__(self, prefix=(), unwind=3, max_decisions=60, feas_timeout_ms=3000, stats=None, max_forks_per_site=8):
+    def __init__(self, prefix=(), unwind=3, max_decisions=60, feas_timeout_ms=3000, stats=None, max_forks_per_site=8, split=()):
+        self.split = frozenset(split)
         self.prefix = list(prefix)
         self.decisions = []  # list of bools actually taken
         self.pending = []  # alternative prefixes discovered on this path
         self.pc = []  # z3 bools
         self.assumptions = []
         self.axioms = []
+        self.axioms_weak = []
+        self.has_weak = False
         self.obligations = []  # (term, message, where)
         self.defs = {}
         self.defsym = {}
@@ -89,8 +92,13 @@ class PathCtx:
         self.counter[name] = i + 1
         return z3.Bool("%s!%d" % (name, i))
 
-    def axiom(self, t):
+    def axiom(self, t, weak=None):
+        """defining axiom of a symbol; `weak` is an implied, solver-friendlier consequence used
+        by the relaxed proof attempt (a proof from weaker hypotheses is still a proof)"""
         self.axioms.append(t)
+        self.axioms_weak.append(t if weak is None else weak)
+        if weak is not None:
+            self.has_weak = True
         self.solver.add(t)
 
     def assume(self, t):
@@ -139,7 +147,7 @@ class PathCtx:
             if ft and ff:
                 nf = self.fork_count.get(site, 0) + 1
                 self.fork_count[site] = nf
-                if nf > self.max_forks_per_site:
+                if nf > self.max_forks_per_site and not str(site).startswith("split:"):
                     raise Unwound("site %s forked more than %d times" % (site, self.max_forks_per_site))
                 out = True
                 self.pending.append(self.decisions + [False])
@@ -178,8 +186,8 @@ class PathCtx:
             raise Unwound("loop %s beyond unwind bound %d" % (site, self.unwind))
 
     # ---- views for queries --------------------------------------------
-    def hyps(self):
-        return list(T.PI_AXIOMS) + self.assumptions + self.axioms + self.pc
+    def hyps(self, weak=False):
+        return list(T.PI_AXIOMS) + self.assumptions + (self.axioms_weak if weak else self.axioms) + self.pc
 
 
 class PathResult:
@@ -194,7 +202,8 @@ class PathResult:
         self.wall = wall
 
 
-def explore(fn, unwind=3, max_paths=200, max_decisions=60, feas_timeout_ms=3000, stats=None, max_forks_per_site=8):
+def explore(fn, unwind=3, max_paths=200, max_decisions=60, feas_timeout_ms=3000, stats=None, max_forks_per_site=8, split=(),
+            deadline=None):
     """Run fn() once per feasible decision sequence.
 
     Returns (results, leftover) where leftover is the number of queued prefixes
@@ -204,9 +213,11 @@ def explore(fn, unwind=3, max_paths=200, max_decisions=60, feas_timeout_ms=3000,
     stack = [[]]
     results = []
     while stack and len(results) < max_paths:
+        if deadline is not None and time.time() > deadline:
+            break
         prefix = stack.pop()
         c = PathCtx(prefix, unwind=unwind, max_decisions=max_decisions, feas_timeout_ms=feas_timeout_ms, stats=stats,
-                    max_forks_per_site=max_forks_per_site)
+                    max_forks_per_site=max_forks_per_site, split=split)
         T.set_ctx(c)
         t0 = time.time()
         try:
